@@ -214,7 +214,28 @@ func (p *Program) callGraph() *CallGraph {
 			}
 		})
 	}
+	// synthetic wrappers nobody calls or references are not part of the program
 	p.cg = cg
+	taken := p.addressTaken()
+	for changed := true; changed; {
+		changed = false
+		for _, fn := range p.Funcs {
+			if fn.Synthetic == "" || len(cg.Out[fn]) == 0 || len(cg.In[fn]) > 0 || taken[fn] {
+				continue
+			}
+			for _, e := range cg.Out[fn] {
+				ins := cg.In[e.Callee][:0:0]
+				for _, e2 := range cg.In[e.Callee] {
+					if e2.Caller != fn {
+						ins = append(ins, e2)
+					}
+				}
+				cg.In[e.Callee] = ins
+			}
+			delete(cg.Out, fn)
+			changed = true
+		}
+	}
 	return cg
 }
 
